@@ -26,8 +26,10 @@ import (
 	"net/http/httptest"
 	"net/textproto"
 	"net/url"
+	"os"
 	"sort"
 	"strings"
+	"sync"
 	"testing"
 	"time"
 
@@ -50,6 +52,23 @@ type Cfg struct {
 	Headers     []string `json:"headers"`      // "Name: value"
 	RespHeaders []string `json:"resp_headers"` // "Name: value" or "Name:value"
 	BehindRedir bool     `json:"behind_redir"`
+
+	// fields of HTTPConfig the admission logic does not read on HEAD; the statement
+	// makes admission independent of them, so they are drawn too
+	HostHeader   string   `json:"host_header,omitempty"`
+	Hosts        []string `json:"hosts,omitempty"` // "name" or "name:port"; empty = ["127.0.0.1"]
+	HostRotation string   `json:"host_rotation,omitempty"`
+	PortConn     string   `json:"port_conn,omitempty"`
+	Secure       bool     `json:"secure,omitempty"`
+	ProxyEnabled bool     `json:"proxy_enabled,omitempty"`
+	ProxyType    string   `json:"proxy_type,omitempty"`
+	ProxyHost    string   `json:"proxy_host,omitempty"`
+	ProxyPort    string   `json:"proxy_port,omitempty"`
+	ProxyUser    string   `json:"proxy_user,omitempty"`
+	ProxyPass    string   `json:"proxy_pass,omitempty"`
+	KillDate     int64    `json:"kill_date,omitempty"`
+	WorkingHours string   `json:"working_hours,omitempty"`
+	Methode      string   `json:"methode,omitempty"`
 }
 
 type Hdr struct {
@@ -66,6 +85,10 @@ type Req struct {
 	Peer    string `json:"peer"`    // RemoteAddr as net/http reports it
 	XFF     string `json:"xff,omitempty"`
 	Mut     string `json:"mut"` // what the generator intended (label only; the oracle does not read it)
+
+	Host      string `json:"host"`                 // Request.Host as net/http reports it (the Host header)
+	HostClass string `json:"host_class,omitempty"` // how the generator chose it (label only)
+	Extra     []Hdr  `json:"extra,omitempty"`      // further headers, names that are not configured: irrelevant to admission
 }
 
 type Case struct {
@@ -172,7 +195,139 @@ func genCfg(t *rapid.T) Cfg {
 		c.RespHeaders = append(c.RespHeaders, n+sep+genValue(t, respValuePool, "rvalue"))
 	}
 	c.BehindRedir = rapid.Bool().Draw(t, "redir")
+	genCfgExtras(t, &c, true)
 	return c
+}
+
+var listenerHostPool = []string{"c2.example.com", "10.10.10.5", "cdn-7.example.org", "teamserver.corp.example", "192.168.56.1"}
+
+// genCfgExtras draws the HTTPConfig fields admission does not depend on.
+func genCfgExtras(t *rapid.T, c *Cfg, allowSecure bool) {
+	n := rapid.IntRange(1, 3).Draw(t, "nhosts")
+	seen := map[string]bool{}
+	for i := 0; i < n; i++ {
+		h := rapid.SampledFrom(listenerHostPool).Draw(t, "lhost")
+		if seen[h] {
+			continue
+		}
+		seen[h] = true
+		if rapid.IntRange(0, 2).Draw(t, "lhost-port") == 0 {
+			h += ":" + rapid.SampledFrom([]string{"443", "8080"}).Draw(t, "lhost-portv")
+		}
+		c.Hosts = append(c.Hosts, h)
+	}
+	switch rapid.IntRange(0, 5).Draw(t, "hostheader-mode") {
+	case 0, 1: // not configured
+	case 2:
+		c.HostHeader = rapid.SampledFrom([]string{"front.cdn.example.net", "Static.Example.ORG"}).Draw(t, "hh-name")
+	case 3:
+		c.HostHeader = rapid.SampledFrom([]string{"front.cdn.example.net:8443", "a.b:80"}).Draw(t, "hh-name-port")
+	case 4:
+		c.HostHeader = c.Hosts[0] // equal to one of the hosts
+	case 5:
+		c.HostHeader = strings.Split(c.Hosts[0], ":")[0] + ".evil.example" // resembles a host but differs
+	}
+	c.HostRotation = rapid.SampledFrom([]string{"round-robin", "random"}).Draw(t, "rotation")
+	if rapid.Bool().Draw(t, "portconn") {
+		c.PortConn = rapid.SampledFrom([]string{"443", "8443"}).Draw(t, "portconnv")
+	}
+	if rapid.IntRange(0, 2).Draw(t, "proxy") == 0 {
+		c.ProxyEnabled = true
+		c.ProxyType = rapid.SampledFrom([]string{"http", "https"}).Draw(t, "ptype")
+		c.ProxyHost = rapid.SampledFrom([]string{"proxy.corp.example", "10.0.0.2"}).Draw(t, "phost")
+		c.ProxyPort = rapid.SampledFrom([]string{"8080", "3128"}).Draw(t, "pport")
+		if rapid.Bool().Draw(t, "pcreds") {
+			c.ProxyUser, c.ProxyPass = "svc-proxy", "P@ss: w0rd"
+		}
+	}
+	if rapid.IntRange(0, 3).Draw(t, "killdate") == 0 {
+		c.KillDate = 133500000000000000
+	}
+	if rapid.IntRange(0, 3).Draw(t, "hours") == 0 {
+		c.WorkingHours = "8:00-17:00"
+	}
+	c.Methode = rapid.SampledFrom([]string{"", "POST", "post"}).Draw(t, "methode")
+	// a TLS listener generates an RSA key on start (~0.1 s): rare
+	if allowSecure && rapid.IntRange(0, 149).Draw(t, "secure") == 0 {
+		c.Secure = true
+	}
+}
+
+func hostHeaderClass(c Cfg) string {
+	switch {
+	case c.HostHeader == "":
+		return "empty"
+	case len(c.Hosts) > 0 && c.HostHeader == c.Hosts[0]:
+		return "one-of-hosts"
+	case strings.HasSuffix(c.HostHeader, ".evil.example"):
+		return "resembles-a-host"
+	case strings.Contains(c.HostHeader, ":"):
+		return "name:port"
+	}
+	return "name"
+}
+
+var (
+	hostClasses = []string{"canonical", "canonical", "canonical", "case-variant", "port-toggled", "one-of-hosts", "bind-address", "garbage", "empty", "other-host-of-pool"}
+	extraPool   = []Hdr{{"X-Forwarded-Host", "front.cdn.example.net"}, {"X-Forwarded-Host", "evil.example"}, {"Referer", "https://front.cdn.example.net/"},
+		{"Origin", "https://evil.example"}, {"Cookie", "session=abc; id=1"}, {"Content-Type", "application/octet-stream"}, {"Content-Type", "text/html"},
+		{"X-Real-IP", "6.6.6.6"}, {"Forwarded", "for=7.7.7.7;host=evil.example"}, {"Authorization", "Basic eDp5"}}
+)
+
+// genHost draws Request.Host.  The canonical Demon request carries the configured host
+// header, or the host it connects to when none is configured (TransportHttp.c).
+func genHost(t *rapid.T, c Cfg) (string, string) {
+	hosts := c.Hosts
+	if len(hosts) == 0 {
+		hosts = []string{"127.0.0.1"}
+	}
+	canon := c.HostHeader
+	if canon == "" {
+		canon = rapid.SampledFrom(hosts).Draw(t, "canon-host")
+	}
+	class := rapid.SampledFrom(hostClasses).Draw(t, "host-class")
+	switch class {
+	case "case-variant":
+		if f := flipCase(canon); f != "" {
+			return f, class
+		}
+	case "port-toggled":
+		if i := strings.Index(canon, ":"); i >= 0 {
+			return canon[:i], class
+		}
+		return canon + ":8443", class
+	case "one-of-hosts":
+		return rapid.SampledFrom(hosts).Draw(t, "a-host"), class
+	case "bind-address":
+		return "127.0.0.1:40056", class
+	case "garbage":
+		return rapid.SampledFrom([]string{"%%%", "localhost", "[::1]:80", "a b", "*.example.com", "xn--e1afmkfd.xn--p1ai"}).Draw(t, "garbage-host"), class
+	case "empty":
+		return "", class
+	case "other-host-of-pool":
+		return rapid.SampledFrom(listenerHostPool).Draw(t, "pool-host"), class
+	}
+	return canon, "canonical"
+}
+
+func genExtra(t *rapid.T, c Cfg) []Hdr {
+	configured := map[string]bool{"user-agent": true, "x-forwarded-for": true}
+	for _, h := range c.Headers {
+		n, _ := splitCfgHeader(h)
+		configured[strings.ToLower(n)] = true
+	}
+	var out []Hdr
+	seen := map[string]bool{}
+	for i, n := 0, rapid.IntRange(0, 3).Draw(t, "nextra"); i < n; i++ {
+		e := rapid.SampledFrom(extraPool).Draw(t, "extra")
+		k := strings.ToLower(e.Name)
+		if configured[k] || seen[k] {
+			continue
+		}
+		seen[k] = true
+		out = append(out, e)
+	}
+	return out
 }
 
 func splitCfgHeader(h string) (string, string) {
@@ -250,6 +405,8 @@ func genReq(t *rapid.T, c Cfg, idx int) Req {
 		n, v := splitCfgHeader(h)
 		r.Headers = append(r.Headers, Hdr{varyNameCase(t, n), v})
 	}
+	r.Host, r.HostClass = genHost(t, c)
+	r.Extra = genExtra(t, c)
 	r.Peer = rapid.SampledFrom(peerPool).Draw(t, "peer")
 	if c.BehindRedir || rapid.IntRange(0, 2).Draw(t, "spoof-xff") == 0 {
 		r.XFF = rapid.SampledFrom(xffPool).Draw(t, "xff")
@@ -589,19 +746,17 @@ func startListener(c Cfg) (*handlers.HTTP, *tsx.Recorder, func()) {
 	tsx.Quiet()
 	rec := tsx.NewRecorder()
 	h := handlers.NewConfigHttp()
-	h.Config = handlers.HTTPConfig{
-		Name:        "c12",
-		Hosts:       []string{"127.0.0.1"},
-		HostBind:    "127.0.0.1",
-		PortBind:    "0",
-		Methode:     "POST",
-		BehindRedir: c.BehindRedir,
-		UserAgent:   c.UserAgent,
-		Headers:     append([]string(nil), c.Headers...),
-		Uris:        append([]string(nil), c.Uris...),
-	}
-	h.Config.Response.Headers = append([]string(nil), c.RespHeaders...)
+	h.Config = httpConfigFull(c, "c12")
 	h.Teamserver = rec
+	if c.Secure {
+		secureLootOnce.Do(func() {
+			d, err := os.MkdirTemp("", "verif-c12-loot-")
+			if err == nil {
+				secureLoot = d
+			}
+		})
+		tsx.SetLoot(secureLoot) // Start() writes the generated certificate below the listener path
+	}
 	h.Start()
 	stop := func() {
 		// h.Server is assigned inside the goroutine Start() spawned; wait for it, close
@@ -615,7 +770,7 @@ func startListener(c Cfg) (*handlers.HTTP, *tsx.Recorder, func()) {
 			h.Server.Close()
 		}
 		for time.Now().Before(deadline) {
-			done := false
+			done := c.Secure && !h.Active // the TLS goroutine only clears Active on ErrServerClosed
 			for _, e := range rec.Take() {
 				if e.Kind == "listenererror" {
 					done = true
@@ -628,6 +783,31 @@ func startListener(c Cfg) (*handlers.HTTP, *tsx.Recorder, func()) {
 		}
 	}
 	return h, rec, stop
+}
+
+var (
+	secureLootOnce sync.Once
+	secureLoot     string
+)
+
+// httpConfigFull builds the HTTPConfig of a case with every field that exists on HEAD.
+func httpConfigFull(c Cfg, name string) handlers.HTTPConfig {
+	hosts := append([]string(nil), c.Hosts...)
+	if len(hosts) == 0 {
+		hosts = []string{"127.0.0.1"}
+	}
+	hc := handlers.HTTPConfig{
+		Name: name, KillDate: c.KillDate, WorkingHours: c.WorkingHours, Hosts: hosts, HostBind: "127.0.0.1",
+		Methode: c.Methode, HostRotation: c.HostRotation, PortBind: "0", PortConn: c.PortConn,
+		BehindRedir: c.BehindRedir, UserAgent: c.UserAgent,
+		Headers: append([]string(nil), c.Headers...), Uris: append([]string(nil), c.Uris...),
+		HostHeader: c.HostHeader, Secure: c.Secure,
+	}
+	hc.Proxy.Enabled = c.ProxyEnabled
+	hc.Proxy.Type, hc.Proxy.Host, hc.Proxy.Port = c.ProxyType, c.ProxyHost, c.ProxyPort
+	hc.Proxy.Username, hc.Proxy.Password = c.ProxyUser, c.ProxyPass
+	hc.Response.Headers = append([]string(nil), c.RespHeaders...)
+	return hc
 }
 
 func effects(ev []tsx.Event) []tsx.Event {
@@ -653,10 +833,15 @@ func buildRequest(r Req, agentID uint32) *http.Request {
 	req := &http.Request{
 		Method: r.Method, URL: u, Proto: "HTTP/1.1", ProtoMajor: 1, ProtoMinor: 1,
 		Header: http.Header{}, Body: io.NopCloser(bytes.NewReader(body)), ContentLength: int64(len(body)),
-		Host: "127.0.0.1", RemoteAddr: r.Peer, RequestURI: r.URI,
+		Host: r.Host, RemoteAddr: r.Peer, RequestURI: r.URI,
 	}
 	for _, h := range r.Headers {
 		req.Header.Add(h.Name, h.Value)
+	}
+	for _, h := range r.Extra {
+		if req.Header.Get(h.Name) == "" { // never shadows a header the case already carries
+			req.Header.Add(h.Name, h.Value)
+		}
 	}
 	if r.HasUA {
 		req.Header.Set("User-Agent", r.UA)
@@ -704,7 +889,7 @@ func assess(cfg Cfg, r Req, i int, agentID uint32, w *httptest.ResponseRecorder,
 	report := func(v *core.Violation) { v.Sig = pre + v.Sig + post; report0(v) }
 	feat := cfgFeatures(cfg)
 	v := judge(cfg, r)
-	where := fmt.Sprintf("request %d (%s %q ua=%v/%q headers=%v peer=%s mut=%q) against cfg %+v", i, r.Method, r.URI, r.HasUA, r.UA, r.Headers, r.Peer, r.Mut, cfg)
+	where := fmt.Sprintf("request %d (%s %q host=%q(%s) ua=%v/%q headers=%v extra=%v peer=%s mut=%q) against cfg %+v", i, r.Method, r.URI, r.Host, r.HostClass, r.HasUA, r.UA, r.Headers, r.Extra, r.Peer, r.Mut, cfg)
 
 	if admitted && v.MustReject {
 		report(core.V("admit|"+strings.Join(v.Reasons, "+"), "%s reached the agent protocol although it violates: %v", where, v.Reasons))
@@ -819,7 +1004,8 @@ func classify(c Case) core.Class {
 	var cl core.Class
 	nc := nConstraints(c.Cfg)
 	cl.Labels = append(cl.Labels, "constraints:"+bucket(nc), fmt.Sprintf("uris:%d", len(effectiveUris(c.Cfg))),
-		fmt.Sprintf("resp-headers:%d", len(c.Cfg.RespHeaders)), fmt.Sprintf("redir:%v", c.Cfg.BehindRedir), "cfg:"+cfgFeatures(c.Cfg))
+		fmt.Sprintf("resp-headers:%d", len(c.Cfg.RespHeaders)), fmt.Sprintf("redir:%v", c.Cfg.BehindRedir), "cfg:"+cfgFeatures(c.Cfg),
+		"hostheader-config:"+hostHeaderClass(c.Cfg), fmt.Sprintf("proxy:%v", c.Cfg.ProxyEnabled), fmt.Sprintf("secure:%v", c.Cfg.Secure))
 	if c.Cfg.UserAgent != "" {
 		cl.Labels = append(cl.Labels, "ua-configured")
 	}
@@ -845,7 +1031,13 @@ func classify(c Case) core.Class {
 		case v.MustReject:
 			kind = "violates:" + strings.Join(v.Reasons, "+")
 		}
-		cl.Labels = append(cl.Labels, "req:"+kind, "peer:"+peerKind(r.Peer))
+		cl.Labels = append(cl.Labels, "req:"+kind, "peer:"+peerKind(r.Peer), "request-host:"+r.HostClass)
+		if c.Cfg.HostHeader != "" && nConstraints(c.Cfg) > 0 {
+			cl.Labels = append(cl.Labels, "hostheader-set|request-host:"+r.HostClass+"|"+strings.SplitN(kind, ":", 2)[0])
+		}
+		if len(r.Extra) > 0 {
+			cl.Labels = append(cl.Labels, "request-extra-headers")
+		}
 		if r.Mut != "" {
 			for _, m := range strings.Split(r.Mut, "+") {
 				cl.Labels = append(cl.Labels, "mut:"+m)
@@ -859,14 +1051,22 @@ func classify(c Case) core.Class {
 	if len(fp) > 1 {
 		fp = fp[:1] // the first non-trivial request characterises the case
 	}
-	cl.Fingerprint = fmt.Sprintf("c=%s|redir=%v|%s|%s", bucket(nc), c.Cfg.BehindRedir, cfgFeatures(c.Cfg), strings.Join(fp, ","))
+	cl.Fingerprint = fmt.Sprintf("c=%s|redir=%v|hh=%v|%s|%s", bucket(nc), c.Cfg.BehindRedir, c.Cfg.HostHeader != "", cfgFeatures(c.Cfg), strings.Join(fp, ","))
 	return cl
+}
+
+func TestMain(m *testing.M) {
+	code := m.Run()
+	if secureLoot != "" {
+		os.RemoveAll(secureLoot)
+	}
+	os.Exit(code)
 }
 
 func TestC12a(t *testing.T) {
 	core.Run(t, core.Spec[Case]{
 		Property: "C12", Sub: "a",
-		Rule: "listener configuration (0-4 URIs with/without query or the [\"\"] form, user agent set/unset, 0-4 request headers 'Name: value' incl. the ignored Connection/Accept-Encoding and values containing ': ' and ':', 0-3 response headers with values containing ':', redirector flag) on the real handlers.HTTP after Start(); 1-6 requests generated around that configuration: the canonical Demon request, or with one / several of {GET,PUT,HEAD, wrong path, extra query, path case, path suffix, header missing/wrong/case/truncated/extended, user agent wrong/missing/case, ignored header altered}, IPv4 and IPv6 peers, X-Forwarded-For present or not; body = valid registration. Oracle from the statement: admitted => all constraints hold; all hold => admitted with 200 + registration reply + every response header with its full value + ExternalIP = peer IP (or X-Forwarded-For iff redirector); otherwise 404 and no recorder event. Non-trivial: >=1 configured constraint and a request that satisfies all or violates exactly one; distinct = (constraint bucket, redirector, config feature, verdict kind of the first non-trivial request)",
+		Rule: "every field of HTTPConfig is drawn: besides those below, 1-3 Hosts with/without port, HostHeader (unset / a name / name:port / equal to a host / resembling one), rotation, PortConn, proxy settings, kill date, working hours, method spelling, TLS (1/150: real certificate generation); requests additionally draw Request.Host (the canonical one = HostHeader or a host, case variant, port added/removed, one of Hosts, the bind address, garbage, empty, another host) and 0-3 further headers with names that are not configured (X-Forwarded-Host, Referer, Origin, Cookie, Content-Type, X-Real-IP, Forwarded, Authorization): by the statement none of these influences admission. Admission-relevant part: listener configuration (0-4 URIs with/without query or the [\"\"] form, user agent set/unset, 0-4 request headers 'Name: value' incl. the ignored Connection/Accept-Encoding and values containing ': ' and ':', 0-3 response headers with values containing ':', redirector flag) on the real handlers.HTTP after Start(); 1-6 requests generated around that configuration: the canonical Demon request, or with one / several of {GET,PUT,HEAD, wrong path, extra query, path case, path suffix, header missing/wrong/case/truncated/extended, user agent wrong/missing/case, ignored header altered}, IPv4 and IPv6 peers, X-Forwarded-For present or not; body = valid registration. Oracle from the statement: admitted => all constraints hold; all hold => admitted with 200 + registration reply + every response header with its full value + ExternalIP = peer IP (or X-Forwarded-For iff redirector); otherwise 404 and no recorder event. Non-trivial: >=1 configured constraint and a request that satisfies all or violates exactly one; distinct = (constraint bucket, redirector, config feature, verdict kind of the first non-trivial request)",
 		Gen:  gen, Check: check, Classify: classify,
 		Assumptions: []string{
 			"requests are delivered in-process through GinEngine.ServeHTTP with canonical header names and trimmed values, as net/http's server delivers them",
@@ -874,6 +1074,7 @@ func TestC12a(t *testing.T) {
 			"configured headers have the 'Name: value' form; header values are ASCII without leading/trailing blanks",
 			"grey zones accepted either way: a request whose path equals a configured URI but carries an extra query string; a header value differing only in letter case (documented as case-insensitive); URIs == [\"\"] means none configured",
 			"a request that differs from the canonical form only in the two documented ignored headers counts as satisfying",
+			"admission depends on method, URI, user agent and the configured request headers only (statement; HEAD reads nothing else): Request.Host, HostHeader, Hosts, proxy, TLS and further request headers do not change the verdict",
 			"behind a redirector a request always carries X-Forwarded-For with a single address",
 		},
 	})
